@@ -470,6 +470,19 @@ def check(ctx):
            detail=str(names), stmt="build order " + str(names))
     if tcalls:
         _, t, cond, _ = tcalls[0]
+        # the loop leaves everything else to Var.transform: it writes neither the original
+        # nor the new variable afterwards (flags were moved inside transform; writing them
+        # again here would undo that)
+        v_it = t[1][1]
+        touched = [loc for loc, val, _, cd in rbm.stores
+                   if loc[0] == "a" and (loc[1] == v_it or loc[1] == t or t in set(subterms(loc[1])))]
+        touched += [c_ for c_, _, cd in rbm.calls if c_[0] == "call" and c_[1][0] == "a"
+                    and c_ != t and (c_[1][1] == t or (c_[1][1][0] == "a" and c_[1][1][1] == t))]
+        ctx.ob("C14.R3", bm, "after var.transform(None) the build writes nothing to the "
+                             "original or the new variable (flag transfer is Var.transform's "
+                             "job)", not touched,
+               detail="; ".join(pretty(x)[:60] for x in touched[:3]),
+               stmt="auto-transform loop writes " + "; ".join(pretty(x)[:40] for x in touched[:2]))
         at = [a for a, p in cond if a[0] == "a" and a[2] == "auto_transform" and p]
         ok = (len(at) == 1 and (kw(t, "bijector", 0) == c(None)) and t[1][1] == at[0][1]
               and t[1][1][0] == "iter")
